@@ -181,7 +181,7 @@ def proc_project(calls, with_prog, with_generic, nograph=None, entmeta=None):
     L.append("end module pm")
     files = {"src/pm.f90": "\n".join(L) + "\n"}
     if with_prog:
-        files["src/prog.f90"] = "program prog\n!! prog\nuse pm\nimplicit none\ncall p1(1)\n" + ("call gen(2.0)\n" if with_generic else "") + "end program prog\n"
+        files["src/prog.f90"] = "program prog\n!! prog\nuse pm, only: p3\nuse pm, only: p1" + (", gen" if with_generic else "") + "\nimplicit none\ncall p1(1)\n" + ("call gen(2.0)\n" if with_generic else "") + "end program prog\n"
         rel["calls"].add(("program~prog", "proc~p1"))
         if with_generic:
             rel["calls"].add(("program~prog", "interface~gen"))
